@@ -63,6 +63,37 @@ def show_fields(fields):
     return ";".join("%s:%s[%s]" % (n, t, "|".join(a)) for n, t, a in fields)
 
 
+def find_inherent_impls(f, mod, type_name):
+    """every inherent impl block of the type: [(path, generics, where)]"""
+    out = []
+    for k, v in f.kv:
+        if k.startswith(mod + "::impl#") and k.endswith("|impl"):
+            gens, wh, rest = parse_generics(v)
+            m = re.match(r"trait=(.*?);self=(.*)$", rest, flags=re.S)
+            if not m:
+                continue
+            if m.group(1).strip() == "" and re.match(r"%s\b" % re.escape(type_name), m.group(2).strip()):
+                out.append((k[:-len("|impl")], gens, wh))
+    return out
+
+
+def impl_with_fn(f, mod, type_name, fn):
+    """the inherent impl block of the type that defines `fn` (the generated code may spread the methods over several
+    blocks), else the first one"""
+    impls = find_inherent_impls(f, mod, type_name)
+    for path, gens, wh in impls:
+        if fn in impl_fns(f, path):
+            return path, gens, wh
+    return impls[0] if impls else (None, [], [])
+
+
+def all_impl_fns(f, mod, type_name):
+    out = []
+    for path, _, _ in find_inherent_impls(f, mod, type_name):
+        out.extend(impl_fns(f, path))
+    return out
+
+
 def find_inherent_impl(f, mod, type_name):
     for k, v in f.kv:
         if k.startswith(mod + "::impl#") and k.endswith("|impl"):
@@ -83,6 +114,70 @@ def impl_fns(f, impl_path):
     return out
 
 
+def split_depth(s, sep):
+    """split a token string at `sep` tokens outside every bracket"""
+    out, depth, cur = [], 0, []
+    for t in s.split(" "):
+        if t in ("(", "[", "{"):
+            depth += 1
+        elif t in (")", "]", "}"):
+            depth -= 1
+        if t == sep and depth == 0:
+            out.append(" ".join(cur))
+            cur = []
+        else:
+            cur.append(t)
+    out.append(" ".join(cur))
+    return out
+
+
+def retok(s):
+    """token string with every bracket and separator as its own token (proc_macro2 glues `(ctx)` and `f (`)"""
+    return " ".join(re.sub(r"([()\[\]{},;])", r" \1 ", s).split())
+
+
+def untok(s):
+    """back to the spelling proc_macro2 prints"""
+    s = re.sub(r"\( ", "(", s)
+    s = re.sub(r" \)", ")", s)
+    s = re.sub(r"\[ ", "[", s)
+    s = re.sub(r" \]", "]", s)
+    return s
+
+
+def norm_expr(body):
+    """A generated expression brought to the spelling the templates use: the bindings of a block `{ let a = E ; ... tail }`
+    are inlined (each is a plain name bound once to a call or a path), and `Result::map_err(x, f)` is written
+    `x.map_err(f)`. Anything else is returned as it is."""
+    t = retok(body)
+    changed = True
+    while changed:
+        changed = False
+        if t.startswith("{ ") and t.endswith(" }") and len(split_depth(t, "}")) == 2 and split_depth(t, "}")[1] == "":
+            inner = t[2:-2]
+            parts = split_depth(inner, ";")
+            if len(parts) > 1 and all(re.match(r"let \w+ = ", x) for x in parts[:-1]) and parts[-1].strip():
+                tail = parts[-1]
+                for stm in reversed(parts[:-1]):
+                    m = re.match(r"let (\w+) = (.*)$", stm)
+                    name, e = m.group(1), m.group(2)
+                    if len(re.findall(r"(?<![\w.] )\b%s\b" % re.escape(name), tail)) != 1:
+                        return body
+                    tail = re.sub(r"(?<![\w.] )\b%s\b" % re.escape(name), lambda _m: e, tail, count=1)
+                t = tail
+                changed = True
+            elif len(parts) == 1:
+                t = inner
+                changed = True
+        m = re.match(r"(?:(?:(?:std|core) :: )?result :: )?Result :: map_err \( (.*) \)$", t)
+        if m:
+            args = [a for a in split_depth(m.group(1), ",") if a.strip()]
+            if len(args) == 2:
+                t = "%s . map_err ( %s )" % (args[0].strip(), args[1].strip())
+                changed = True
+    return untok(t)
+
+
 ARM_HEAD = re.compile(r"(?:^|, |\{ )(\w+) \{ ((?:\w+ : \w+ , )*)\} => ")
 
 
@@ -100,7 +195,7 @@ def parse_arms(body):
         ph = arm_body.find("_Phantom (_) =>")
         if ph >= 0:
             arm_body = arm_body[:ph].strip()
-        arm_body = arm_body.rstrip(",").strip()
+        arm_body = norm_expr(arm_body.rstrip(",").strip())
         binds = {}
         for pair in h.group(2).split(" , "):
             pair = pair.strip().rstrip(",").strip()
@@ -133,7 +228,7 @@ def canon_enum(f, mod, type_name, alias_of=None):
         return ["enum %s missing" % type_name]
     gens, wh, _ = parse_generics(head)
     lines.append("enum %s generics=%s" % (real, ",".join(gens)))
-    impl_path, igens, iwh = find_inherent_impl(f, mod, real)
+    impl_path, igens, iwh = impl_with_fn(f, mod, real, "dispatch")
     lines.append("enum %s impl_where=%s" % (real, ";".join(iwh)))
     lines.append("enum %s attrs=%s" % (real, ";;".join(forwarded_type_attrs(f.all(path + "|attr")))))
     variants = [k[len(path) + 2:-len("|variant")] for k, v in f.kv
@@ -146,7 +241,7 @@ def canon_enum(f, mod, type_name, alias_of=None):
         dgens, dwh, _ = parse_generics(f.one(impl_path + "::dispatch|fn_generics", "generics=[];where=[]"))
         dg = [g for g in dgens if g != "ContractT"]
         arms = parse_arms(f.one(impl_path + "::dispatch|body", ""))
-        ctors = [n for n in impl_fns(f, impl_path) if n != "dispatch"]
+        ctors = [n for n in all_impl_fns(f, mod, real) if n != "dispatch"]
     lines.append("enum %s dispatch_generics=%s" % (real, ",".join(dg)))
     return lines, path, variants, arms, ctors, wh
 
@@ -194,7 +289,7 @@ def canon_struct(f, mod, name):
         return []
     gens, wh, _ = parse_generics(head)
     lines = ["struct %s generics=%s" % (name, ",".join(gens))]
-    impl_path, igens, iwh = find_inherent_impl(f, mod, name)
+    impl_path, igens, iwh = impl_with_fn(f, mod, name, "dispatch")
     lines.append("struct %s impl_where=%s" % (name, ";".join(iwh)))
     lines.append("struct %s attrs=%s" % (name, ";;".join(forwarded_type_attrs(f.all(path + "|attr")))))
     lines.append("struct %s fields=%s" % (name, show_fields(fields_of(f, path))))
@@ -203,6 +298,9 @@ def canon_struct(f, mod, name):
         dgens, dwh, _ = parse_generics(f.one(impl_path + "::dispatch|fn_generics", "generics=[];where=[]"))
         dg = dgens
         body = f.one(impl_path + "::dispatch|body", "")
+        md = re.match(r"\{ (let Self \{[^}]*\} = self ;) (.*) \}$", body, flags=re.S)
+        if md:
+            body = "{ %s %s }" % (md.group(1), norm_expr("{ " + md.group(2) + " }"))
         m = re.search(r"contract \. (\w+) \(Into :: into \(ctx\)(.*?)\) \. map_err \(Into :: into\) \}$", body)
         if m:
             call = "%s:%s" % (m.group(1), ",".join(a.strip() for a in m.group(2).split(",") if a.strip()))
@@ -230,7 +328,7 @@ def canon_wrapper(f, mod, name, ep):
             acc = m.group(1) if m else flds[0][1]
         vs.append("%s:%s" % (v, acc))
     lines = ["wrapper %s variants=%s" % (name, ",".join(vs))]
-    impl_path, _, _ = find_inherent_impl(f, mod, name)
+    impl_path, _, _ = impl_with_fn(f, mod, name, "dispatch")
     tables, bridged = [], []
     if impl_path:
         body = f.one(impl_path + "::dispatch|body", "")
